@@ -2,6 +2,7 @@ import Ufw.Props.C02
 import Ufw.Tie.RegTable
 import Ufw.Props.C02Iff
 import Ufw.Tie.RegFns.Geometry
+import Ufw.Tie.RegFns.EndToEnd
 #print axioms Ufw.Props.C02.refused_unchanged
 #print axioms Ufw.Props.C02.decision
 #print axioms Ufw.Props.C02.writeable_spec
@@ -26,3 +27,6 @@ import Ufw.Tie.RegFns.Geometry
 #print axioms Ufw.Tie.RegFns.gen_reg_range_touches
 #print axioms Ufw.Tie.RegFns.overlap_iff_touches_zero
 #print axioms Ufw.Tie.RegFns.gen_ra_range_touches
+#print axioms Ufw.Tie.RegFns.ofNat_address
+#print axioms Ufw.Tie.RegFns.c_taint_selects
+#print axioms Ufw.Tie.RegFns.c_foreach_overlap
